@@ -110,7 +110,7 @@ def run_coq_shards(chk: Check, tag: str, items, per_file=350, workers=6):
     failing, errors = set(), []
 
     def one(j):
-        ok, out = chk.coq_eval(f"c03_{tag}_{j}", coq_file(shards[j]), timeout=900)
+        ok, out = chk.coq_eval(f"c03_{tag}_{os.getpid()}_{j}", coq_file(shards[j]), timeout=900)
         return j, ok, out
 
     with ThreadPoolExecutor(max_workers=workers) as ex:
@@ -226,6 +226,16 @@ def py_wf(r) -> bool:
         return False
 
 
+def cleanup_scratch():
+    """remove this run's scratch .v/.vo/.glob files from /verif/build/cases"""
+    d = VERIF / "build" / "cases"
+    for f in list(d.glob(f"c03_*_{os.getpid()}_*")) + list(d.glob(f".c03_*_{os.getpid()}_*")) + list(d.glob(f"c03_*_{os.getpid()}.*")) + list(d.glob(f".c03_*_{os.getpid()}.*")):
+        try:
+            f.unlink()
+        except OSError:
+            pass
+
+
 def corpus_cases():
     d = VERIF / "corpus" / "C03"
     out = []
@@ -276,7 +286,7 @@ def run(chk: Check):
     thorough = chk.tier == "thorough"
     rng = random.Random(f"C03-check:{chk.seed}")
 
-    nshards = 6
+    nshards = 8 if thorough else 6
     reqs = [{"mode": "sweep", "seed": chk.seed, "tier": chk.tier, "shard": k, "nshards": nshards,
              "timeout": 2400 if thorough else 900} for k in range(nshards)]
     corpus = corpus_cases()
@@ -421,7 +431,7 @@ def run(chk: Check):
         if len(seen) > 12:
             chk.count("violations:suppressed-beyond-12")
             continue
-        ok, outp = chk.coq_eval(f"c03_ph_{len(seen)}", coq_phantoms_file(term), timeout=300)
+        ok, outp = chk.coq_eval(f"c03_ph_{os.getpid()}_{len(seen)}", coq_phantoms_file(term), timeout=300)
         m = re.search(r"=\s*(.*?)\s*:\s*list", outp, flags=re.S)
         chk.violation(
             "a compressed output level stores a coordinate without structural support",
@@ -440,6 +450,7 @@ def run(chk: Check):
                         "phantoms": []})
             k += 1
     chk.extra["oracle"] = "Support.no_phantomb (Coq, vm_compute); proved <-> 'every prefix stored by a compressed level has level_support' in props/C03.v"
+    cleanup_scratch()
 
 
 def replay(chk: Check, payload):
@@ -459,9 +470,10 @@ def replay(chk: Check, payload):
         return 0 if o["status"] == "skip" else 1
     term = case_term(o["ast"], o["inputs"], o["sizes"], o["out"])
     failing, errors = run_coq_shards(chk, "replay", [(0, term)])
-    ok, outp = chk.coq_eval("c03_replay_ph", coq_phantoms_file(term), timeout=300)
+    ok, outp = chk.coq_eval(f"c03_replay_ph_{os.getpid()}", coq_phantoms_file(term), timeout=300)
     print("replay: output", json.dumps(o["out"]))
     print("replay: Coq phantoms", " ".join(outp.split())[:400])
     bad = bool(failing) or bool(errors)
     print("replay:", "STILL FAILING" if bad else "passes now")
+    cleanup_scratch()
     return 1 if bad else 0
